@@ -74,7 +74,7 @@ def oracle(name, s):
 
 
 def correspondence(ctx):
-    n = 6000 if ctx.thorough else 1200
+    n = 25000 if ctx.thorough else 1200
     for name in A.ALL:
         stream = "parse:" + name
         if not A.has_model(name):
@@ -102,7 +102,7 @@ def correspondence(ctx):
             else:
                 ctx.disagree(stream, "vparse %s" % name, d["impl"], d["model"], False, rep)
     # the oracle on the real code over grammar-generated and decorated strings
-    m = 1500 if ctx.thorough else 300
+    m = 6000 if ctx.thorough else 300
     for name in A.ALL:
         rng = ctx.rng("c11-oracle", name)
         stream = "oracle:" + name
